@@ -5,6 +5,12 @@
 #[derive(Debug, Clone, Serialize, Deserialize)]
 struct HistCase {
     ops: Vec<Op>,
+    /// cache loss while the authority keeps running: before step `.0` the full sidecar of the
+    /// thread chosen by `.1` (or, with `.2`, the whole cache directory) is deleted. The raw
+    /// sidecar FILE of an affected thread is no longer compared (what the appender leaves behind
+    /// is C04's subject); what `replay_events` answers from it stays strict.
+    #[serde(default)]
+    lose: Vec<(u16, u16, bool)>,
 }
 
 fn hist_case_strategy() -> BoxedStrategy<HistCase> {
@@ -14,12 +20,15 @@ fn hist_case_strategy() -> BoxedStrategy<HistCase> {
         checkpoint: 4,
         ..OpWeights::default()
     };
-    prop_oneof![
+    let ops = prop_oneof![
         3 => ops_strategy(w, 24),
         2 => ops_strategy(w, 60),
-    ]
-    .prop_map(|ops| HistCase { ops })
-    .boxed()
+    ];
+    let lose = prop_oneof![
+        3 => Just(Vec::new()),
+        2 => proptest::collection::vec((any::<u16>(), any::<u16>(), proptest::bool::weighted(0.3)), 1..3),
+    ];
+    (ops, lose).prop_map(|(ops, lose)| HistCase { ops, lose }).boxed()
 }
 
 /// ids of the full sidecars present: `<id>.jsonl` (index / filtered sidecars carry extra dots)
@@ -75,7 +84,7 @@ fn drain(rx: &mut tokio::sync::broadcast::Receiver<Event>, obs: &mut HistObs) {
 }
 
 /// live == log and sidecar == log for every thread, both directions. Returns the per-thread log.
-fn compare_live_sidecar_log(it: &Interp, obs: &HistObs, step: usize, op: &str, rep: &mut CaseReport) -> Option<BTreeMap<String, Vec<Value>>> {
+fn compare_live_sidecar_log(it: &Interp, obs: &HistObs, lost: &BTreeSet<String>, step: usize, op: &str, rep: &mut CaseReport) -> Option<BTreeMap<String, Vec<Value>>> {
     let truth = match it.sandbox.truth_values() {
         Ok(t) => t,
         Err(e) => {
@@ -104,6 +113,9 @@ fn compare_live_sidecar_log(it: &Interp, obs: &HistObs, step: usize, op: &str, r
             // left = live, right = log
             rep.fail(format!("four_way|continuity|live_vs_log|{}", vs_log(kind)), json!({"step": step, "op": op, "thread": id, "diff": detail}));
         }
+        if lost.contains(id) {
+            continue;
+        }
         match read_jsonl(&it.sandbox.streams_dir().join(format!("{id}.jsonl"))) {
             Ok(side) => {
                 if let Some((_, kind, detail)) = seq_diff(&side, l) {
@@ -123,7 +135,31 @@ fn run_history(case: &HistCase) -> CaseReport {
     let mut obs = HistObs { live: BTreeMap::new(), lagged: false, non_continuity_live: 0 };
     let mut failing = 0u64;
     let mut panicked = false;
+    let mut lost: BTreeSet<String> = BTreeSet::new();
+    let mut appended_after_loss = false;
     for (i, op) in case.ops.iter().enumerate() {
+        for (at, which, whole) in &case.lose {
+            if rv::engine::pick(*at, case.ops.len()) != i {
+                continue;
+            }
+            let dir = it.sandbox.streams_dir();
+            let ids = full_sidecar_ids(&dir);
+            if ids.is_empty() {
+                continue;
+            }
+            if *whole {
+                let _ = std::fs::remove_dir_all(&dir);
+                lost.extend(ids);
+                rep.class("lose:cache_dir");
+            } else {
+                let id = ids[rv::engine::pick(*which, ids.len())].clone();
+                let _ = std::fs::remove_file(dir.join(format!("{id}.jsonl")));
+                lost.insert(id);
+                rep.class("lose:full_sidecar");
+            }
+        }
+        let log_len = |it: &Interp| std::fs::metadata(it.sandbox.log_path()).map(|m| m.len()).unwrap_or(0);
+        let frames_before = log_len(&it);
         match catch(|| it.apply(op)) {
             Ok(r) => {
                 if r.result.is_err() {
@@ -146,7 +182,10 @@ fn run_history(case: &HistCase) -> CaseReport {
             rep.inconclusive("broadcast_lagged");
             return rep;
         }
-        compare_live_sidecar_log(&it, &obs, i, op.tag(), &mut rep);
+        if !lost.is_empty() && log_len(&it) > frames_before {
+            appended_after_loss = true;
+        }
+        compare_live_sidecar_log(&it, &obs, &lost, i, op.tag(), &mut rep);
         if panicked || !rep.ok() {
             break;
         }
@@ -157,7 +196,8 @@ fn run_history(case: &HistCase) -> CaseReport {
 
     // final: every read path against the raw log (sidecar files were compared BEFORE any
     // replay_events call, which may rebuild them)
-    let log = compare_live_sidecar_log(&it, &obs, case.ops.len(), "end", &mut rep).unwrap_or_default();
+    let log = compare_live_sidecar_log(&it, &obs, &lost, case.ops.len(), "end", &mut rep).unwrap_or_default();
+    rep.class_if(appended_after_loss, "lose:appended_after_loss");
     let mut types: BTreeSet<String> = BTreeSet::new();
     let mut frames = 0u64;
     for (id, l) in &log {
@@ -215,7 +255,7 @@ fn run_history(case: &HistCase) -> CaseReport {
     }
     // nothing extra: no sidecar for a thread the log does not know
     for id in &sidecars_before {
-        if !log.contains_key(id) {
+        if !log.contains_key(id) && !lost.contains(id) {
             rep.fail("four_way|continuity|sidecar_without_log_frames", json!({"thread": id}));
         }
     }
